@@ -10,6 +10,7 @@ import KikiVerif.Model.FrontParse
 import KikiVerif.Proofs.Valid
 import KikiVerif.Proofs.Run
 import KikiVerif.Generated.ParserCert
+import KikiVerif.Proofs.CstToAst
 
 namespace KikiVerif.C09
 open KikiVerif KikiVerif.FrontParse KikiVerif.Generated KikiVerif.LR
@@ -126,6 +127,26 @@ theorem C09_parse_correct (toks : List Token) (fuel : Nat) (out : ParseOut) (h :
         · intro _; exact hiff.mp ⟨t, rfl⟩
         · intro _; exact ⟨t, rfl⟩
 
+/-- **C09, flattening**: whenever the front-end parser accepts, `cst_to_ast` succeeds on the CST it
+returned, and unparsing the resulting AST (`Spec/Unparse.lean`: the concrete syntax of `.kiki` files) gives
+back exactly the input tokens without their positions, in order: no item, attribute, field, variant, path
+segment or type argument is dropped, duplicated or reordered -/
+theorem C09_flatten (toks : List Token) (fuel : Nat) (t : CTree) (h : parse toks fuel = some (.ok t)) :
+    ∃ ast, cstToAst t = some ast ∧ Spec.unFile ast = toks.map Spec.erase := by
+  obtain ⟨_, h2, _⟩ := C09_parse_correct toks fuel (.ok t) h
+  obtain ⟨hw, hy⟩ := h2 t rfl
+  have hg : Good t := by
+    intro l hl
+    rw [hy] at hl
+    obtain ⟨tok, _, rfl⟩ := List.mem_map.mp hl
+    rfl
+  obtain ⟨ast, h1, h2⟩ := cstToAst_ok hw hg
+  refine ⟨ast, h1, ?_⟩
+  rw [h2]
+  unfold EY
+  rw [hy, List.map_map]
+  rfl
+
 end KikiVerif.C09
 
 #print axioms KikiVerif.C09.C09_kinds
@@ -134,3 +155,4 @@ end KikiVerif.C09
 #print axioms KikiVerif.C09.C09_reduce_arms
 #print axioms KikiVerif.C09.C09_table_valid
 #print axioms KikiVerif.C09.C09_parse_correct
+#print axioms KikiVerif.C09.C09_flatten
